@@ -516,8 +516,8 @@ def run(tier: str) -> int:
     ck.holds_checked += n_or
     phase["python_oracle"] = round(time.time() - t1, 1)
     t1 = time.time()
-    ck.add_src(['TagAttrDict_initC11', 'Tag_insertC11', 'Tag_extendC11', 'Tag_appendC11', 'HTMLDocument_initC11', 'HTMLDocument_appendC11'], quick=150, thorough=1500)
-    __import__("srctie_c11").add_src_c11(ck, ['HTMLDocument_hoist_head_contentC11', 'HTMLDocument_gen_html_tag_treeC11', 'HTMLDocument_renderC11', 'Tag_renderC11'])
+    ck.add_src(['TagAttrDict_initC11', 'Tag_insertC11', 'Tag_extendC11', 'Tag_appendC11', 'HTMLDocument_initC11', 'HTMLDocument_appendC11'], quick=150, thorough=800)
+    __import__("srctie_c11").add_src_c11(ck, ['HTMLDocument_hoist_head_contentC11', 'HTMLDocument_gen_html_tag_treeC11', 'HTMLDocument_renderC11', 'Tag_renderC11'], thorough=1500)
     ck.correspond(holds=True)
     phase["model_and_statement"] = round(time.time() - t1, 1)
     ck.extra_cov["phase_s"] = phase
